@@ -184,6 +184,7 @@ class State:
         self.last_rejected_type = None
         self.last_iter = None   # (converter, iterator name, specs)
         self.n_amount = 0
+        self.model_gaps = 0     # accepted steps the model could not follow
 
     def amount(self):
         p = PRIMES[self.n_amount % len(PRIMES)]
@@ -284,6 +285,14 @@ def resolve(st: State, op):
             return None
         k = [{'t': 'int', 'v': '1'}, {'t': 'int', 'v': '1'},
              {'t': 'int', 'v': '3'}, {'t': 'dec', 'v': '0.5'}][r[2] % 4]
+        if r[3] % 2 and model.uorder:
+            # ... under a symbol that is taken: rejected whatever the
+            # library thinks of the definition
+            return {'a': 'scaled_unit', 'type': tn,
+                    'sym': decl._pick(model.uorder, r[4]),
+                    'parent': decl._pick(model.types[tn]['units'], r[1]),
+                    'k': k, 'via': 'rmul', 'expect': 'reject',
+                    'bad': 'taken_symbol_on_type_without_reference_unit'}
         return {'a': 'scaled_unit', 'type': tn, 'sym': f'u{n}',
                 'parent': decl._pick(model.types[tn]['units'], r[1]),
                 'k': k, 'via': 'rmul', 'expect': 'follow', 'noref': True,
@@ -578,7 +587,13 @@ def note_outcome(st: State, act, accepted, info):
         elif act.get('noref'):
             model.add_unit(act['sym'], act['type'], None, 'plain')
         elif a != 'evict':
-            decl.apply(model, act, info)
+            try:
+                decl.apply(model, act, info)
+            except Exception:       # noqa
+                # the library accepted what the model cannot even express
+                # (C15 judges that): this check goes on with the twin
+                # comparison, the model just does not know the item
+                st.model_gaps += 1
         return
     for s in decl.symbols_mentioned(act):
         if s and s not in model.units and act.get('bad') not in (
@@ -790,6 +805,20 @@ def _observe(env: Env16, symbols, typenames, pairs=(), final=True):
                 hash(u) == hash(Unit(u.symbol)), u == Unit(u.symbol)]
         except Exception as e:      # noqa
             obs['attrs:' + u.symbol] = 'exc:' + type(e).__name__
+    # units of one type compared with each other (scale-less units are
+    # equal only to themselves, comparing them by size raises)
+    for u in live[:8]:
+        for v in live[:8]:
+            if u is v or u.qty_cls is not v.qty_cls:
+                continue
+            rec = []
+            for fn in (lambda: u == v, lambda: (1 * u) == (1 * v),
+                       lambda: u < v):
+                try:
+                    rec.append(bool(fn()))
+                except Exception as e:      # noqa
+                    rec.append('exc:' + type(e).__name__)
+            obs[f'cmp:{u.symbol}:{v.symbol}'] = rec
     # results of operations on what exists
     if not final:
         live, pairs = [], ()
@@ -936,6 +965,11 @@ def run_a1(h):
         actions.append(act)
         if info == 'hang':
             break       # this world cannot go on
+        if accepted and act.get('expect') == 'reject':
+            # the library accepted what the model holds for invalid (C15
+            # judges that): from here on the model does not describe the
+            # world any more, the history ends here
+            break
     return actions
 
 
